@@ -102,6 +102,7 @@ type rewriteStats struct {
 	ChanSendsHooked  []string `json:"chan_sends_hooked"`
 	ChanOpsUnhooked  []string `json:"chan_ops_unhooked"`
 	// package-level variables of the repository: re-initialised before every in-process application run / left alone
+	StdoutSinksHooked    []string `json:"stdout_sinks_hooked"`
 	SyncImportsRewritten []string `json:"sync_imports_rewritten"`
 	PkgVarsReset         []string `json:"package_vars_reset"`
 	PkgVarsNotReset      []string `json:"package_vars_not_reset"`
@@ -270,6 +271,110 @@ func buildOverlay(repo, verif, out string) (string, *rewriteStats, error) {
 				return fmt.Sprintf("verifVal_%d(%s)", hi, e)
 			}
 			text := func(e ast.Node) string { return string(src[off(e.Pos()):off(e.End())]) }
+			// os.Stdout where an io.Writer (any interface) is expected - the Output of a configuration, an argument of
+			// Fprint - becomes a writer that performs the same write on os.Stdout after telling the scheduler: a write
+			// to a terminal or pipe is where a goroutine is parked while the others run
+			isStdout := func(e ast.Expr) bool {
+				sel, ok := e.(*ast.SelectorExpr)
+				if !ok || sel.Sel.Name != "Stdout" {
+					return false
+				}
+				id, ok := sel.X.(*ast.Ident)
+				if !ok {
+					return false
+				}
+				pn, ok := p.info.Uses[id].(*types.PkgName)
+				return ok && pn.Imported().Path() == "os"
+			}
+			isIface := func(t types.Type) bool {
+				if t == nil {
+					return false
+				}
+				_, ok := t.Underlying().(*types.Interface)
+				return ok
+			}
+			keepOS := ""
+			hookStdout := func(e ast.Expr) {
+				keepOS = text(e) // (the import of os may have no other use in this file)
+				edits = append(edits, edit{off(e.Pos()), off(e.End()), "verifshim.StdoutWriter()"})
+				st.StdoutSinksHooked = append(st.StdoutSinksHooked, site(e.Pos()))
+			}
+			ast.Inspect(f, func(n ast.Node) bool {
+				switch s := n.(type) {
+				case *ast.CompositeLit:
+					tv, ok := p.info.Types[s]
+					if !ok || tv.Type == nil {
+						return true
+					}
+					stt, isStruct := tv.Type.Underlying().(*types.Struct)
+					for i, el := range s.Elts {
+						if kv, isKV := el.(*ast.KeyValueExpr); isKV {
+							if !isStdout(kv.Value) {
+								continue
+							}
+							if isStruct {
+								if key, ok := kv.Key.(*ast.Ident); ok {
+									for fi := 0; fi < stt.NumFields(); fi++ {
+										if stt.Field(fi).Name() == key.Name && isIface(stt.Field(fi).Type()) {
+											hookStdout(kv.Value)
+										}
+									}
+								}
+							}
+						} else if isStruct && isStdout(el) && i < stt.NumFields() && isIface(stt.Field(i).Type()) {
+							hookStdout(el)
+						}
+					}
+				case *ast.CallExpr:
+					tv, ok := p.info.Types[s.Fun]
+					if !ok || tv.Type == nil || tv.IsType() {
+						return true
+					}
+					sig, isSig := tv.Type.Underlying().(*types.Signature)
+					if !isSig {
+						return true
+					}
+					for i, arg := range s.Args {
+						if !isStdout(arg) {
+							continue
+						}
+						var pt types.Type
+						np := sig.Params().Len()
+						switch {
+						case sig.Variadic() && i >= np-1:
+							if sl, ok := sig.Params().At(np - 1).Type().(*types.Slice); ok {
+								pt = sl.Elem()
+							}
+						case i < np:
+							pt = sig.Params().At(i).Type()
+						}
+						if isIface(pt) {
+							hookStdout(arg)
+						}
+					}
+				case *ast.AssignStmt:
+					if s.Tok == token.ASSIGN && len(s.Lhs) == len(s.Rhs) {
+						for i, r := range s.Rhs {
+							if isStdout(r) {
+								if tv, ok := p.info.Types[s.Lhs[i]]; ok && isIface(tv.Type) {
+									hookStdout(r)
+								}
+							}
+						}
+					}
+				case *ast.ValueSpec:
+					if s.Type != nil {
+						if tv, ok := p.info.Types[s.Type]; ok && isIface(tv.Type) {
+							for _, v := range s.Values {
+								if isStdout(v) {
+									hookStdout(v)
+								}
+							}
+						}
+					}
+				}
+				return true
+			})
 			ast.Inspect(f, func(n ast.Node) bool {
 				switch s := n.(type) {
 				case *ast.RangeStmt:
@@ -571,6 +676,9 @@ func buildOverlay(repo, verif, out string) (string, *rewriteStats, error) {
 				fmt.Fprintf(&buf, "func verifRecv1_%d(ch interface{}) %s {\n\tv, _ := verifshim.Recv(ch)\n\treturn verifVal_%d(v)\n}\n", i, ts, i)
 			}
 			fmt.Fprintf(&buf, "\nvar _ = verifshim.Zero\n")
+			if keepOS != "" {
+				fmt.Fprintf(&buf, "\nvar _ = %s\n", keepOS)
+			}
 			for _, r := range fileResets {
 				fmt.Fprintf(&buf, "\nfunc verifReset_%d_() { %s }\n", r.id, r.body)
 			}
